@@ -985,10 +985,7 @@ func (c *nilCtx) computeNonNilParams() {
 					okAll = false
 					break
 				}
-				if _, isGo := ci.(*ssa.Go); isGo {
-					okAll = false
-					break
-				}
+				// (a go statement evaluates its arguments where it stands, so it counts like a call)
 				ss = append(ss, site{ci, arg})
 			}
 			if okAll {
